@@ -4,6 +4,7 @@ import (
 	"fmt"
 	"reflect"
 	"strings"
+	"sync/atomic"
 	"time"
 
 	"github.com/cloudspannerecosystem/memefish"
@@ -87,9 +88,15 @@ var callTimeout = 5 * time.Second
 // a deadline twelve times as long before it is called hung: on a loaded machine (or under the race detector) a slow call is not
 // a looping call, and "returns in bounded time" must not depend on the load.
 func safeParse(e *entry, s string) callResult {
+	if atomic.LoadInt32(&overruns) >= maxOverruns {
+		return callResult{hung: true}
+	}
 	r := safeParseWithin(e, s, callTimeout)
 	if r.hung {
 		r = safeParseWithin(e, s, 12*callTimeout)
+		if r.hung {
+			atomic.AddInt32(&overruns, 1)
+		}
 	}
 	return r
 }
@@ -114,16 +121,35 @@ func safeParseWithin(e *entry, s string, limit time.Duration) callResult {
 	}
 }
 
-// safely runs f under recover; returns the panic value, if any.
+// safely runs f under recover and a deadline; returns the panic value, if any, or a description of the overrun when f does
+// not return (SQL(), Pos(), End(), Walk on a returned tree must terminate just as the parse itself: a looping printer is a
+// violation to report, not a reason for the check to hang).
 func safely(f func()) (p any) {
-	defer func() {
-		if r := recover(); r != nil {
-			p = r
-		}
+	if atomic.LoadInt32(&overruns) >= maxOverruns {
+		return "not run: earlier calls did not return (their goroutines are still spinning)"
+	}
+	done := make(chan any, 1)
+	go func() {
+		defer func() { done <- recover() }()
+		f()
 	}()
-	f()
-	return nil
+	limit := 4 * callTimeout // calls on a finished tree take microseconds; 20 s is ample even on a loaded machine
+	t := time.NewTimer(limit)
+	defer t.Stop()
+	select {
+	case p = <-done:
+		return p
+	case <-t.C:
+		atomic.AddInt32(&overruns, 1)
+		return fmt.Sprintf("did not return within %v", limit)
+	}
 }
+
+// overruns counts calls that missed their (long) deadline in this process. Each leaves a goroutine spinning, so after a few of
+// them the process stops starting new guarded calls and reports what it has: the finding is made, more of it only burns CPU.
+var overruns int32
+
+const maxOverruns = 3
 
 func isNilNode(n ast.Node) bool {
 	if n == nil {
